@@ -3,11 +3,97 @@
 //! Programs ending in (or containing) `gbk`, after arbitrary prefixes, inside join sides; both modes and
 //! all partition counts. Oracle (independent of the model): output keys are unique, the groups flatten to
 //! the input of the group_by_key as a multiset, and the whole result equals the plain-vector reference.
+//!
+//! C04's OWN signatures (`gbk-*`, and the comparison with the reference in this file) compare the values of a group as a
+//! MULTISET ("exactly the input values carrying that key — each one once"): the reference answer and the real answer
+//! are both put into the `deep` canonical form before they are compared (`XOpts::ref_canon = Some("deep")`). The ORDER
+//! inside a group is judged only by `par-differs-from-seq` (C01's statement: both modes return the same sequence) and
+//! by the correspondence with the insertion-ordered model (`canon=top` in the request).
 
 use crate::ctx::Ctx;
 use crate::pipe::*;
 
+/// keys unique + groups flatten to `input` (as multisets) on real output rows of a `group_by_key`
+fn judge_groups(cx: &mut Ctx, idx: usize, rows: &[V], input: &[V], what: &str) {
+    let mut keys: Vec<V> = rows.iter().map(|r| match r { V::P(k, _) => (**k).clone(), o => o.clone() }).collect();
+    let n = keys.len();
+    keys.sort();
+    keys.dedup();
+    if keys.len() != n { cx.oracle_fail(idx, "gbk-duplicate-key-in-output", what.to_string()); }
+    let mut flat: Vec<V> = vec![];
+    for r in rows {
+        if let V::P(k, vs) = r { if let V::L(vs) = &**vs { for v in vs { flat.push(V::pair((**k).clone(), v.clone())); } } }
+    }
+    let norm = |r: &V| match r { V::P(..) => r.clone(), o => V::pair(o.clone(), o.clone()) };
+    let inp: Vec<V> = input.iter().map(norm).collect();
+    if canon_rows(&flat, "deep") != canon_rows(&inp, "deep") { cx.oracle_fail(idx, "gbk-groups-do-not-flatten-to-input", what.to_string()); }
+    if rows.iter().any(|r| matches!(r, V::P(_, vs) if matches!(&**vs, V::L(l) if l.is_empty()))) { cx.oracle_fail(idx, "gbk-empty-group-in-output", what.to_string()); }
+    cx.count("gbk-oracle:checked");
+}
+
+/// large inputs, judged by the oracles only (like `pipe::check_prog_oracle_only`, but the reference comparison is
+/// multiset-valued inside groups; the order inside a group is judged by par == seq, as a sequence)
+fn oracle_only_multiset(cx: &mut Ctx, prog: &Prog, desc: &str, modes: &[Mode]) {
+    let want = ref_answer(&reference(prog), "deep");
+    let mut seq: Option<String> = None;
+    for m in modes {
+        let out = run_real(prog, *m);
+        let idx = cx.case(format!("ORACLE-ONLY {desc} mode={} steps={}", m.enc(), steps_enc(&prog.steps).replace(' ', "_")), "-".into(), true);
+        cx.count("oracle-only:large-input");
+        let short = |s: &str| if s.len() > 300 { format!("{}…({} bytes)", &s[..300], s.len()) } else { s.to_string() };
+        let got = outcome_answer(&out, "deep");
+        if got != want { cx.oracle_fail(idx, "large-input-differs-from-reference", format!("mode={} real={} reference={} (groups compared as multisets)", m.enc(), short(&got), short(&want))); }
+        let exact = outcome_answer(&out, prog.canon());
+        if *m == Mode::Seq { seq = Some(exact); } else if let Some(sa) = &seq { if *sa != exact { cx.oracle_fail(idx, "par-differs-from-seq", format!("large input, mode {}: the sequences inside the groups differ", m.enc())); } }
+    }
+}
+
+/// `group_by_key` over a streamed file source: correspondence + par == seq through `pipe::check_prog_file`, the
+/// reference comparison here (multiset-valued inside groups)
+fn check_gbk_file(cx: &mut Ctx, prog: &Prog, per: usize, modes: &[Mode]) {
+    check_prog_file(cx, prog, per, modes, &CheckOpts { par_vs_seq: true, vs_reference: false });
+    let want = ref_answer(&reference(prog), "deep");
+    for m in modes {
+        let out = run_real_file(prog, per, *m);
+        if matches!(out, Outcome::Hang) { continue; }
+        let got = outcome_answer(&out, "deep");
+        if got != want {
+            let idx = cx.reqs.len().saturating_sub(1);
+            cx.oracle_fail(idx, "differs-from-reference", format!("file source per={per} mode={} real={got} reference={want} (groups compared as multisets) prog={}", m.enc(), prog.request(&m.enc())));
+        }
+    }
+}
+
+/// the keys-unique + flatten oracle at EVERY `gbk` position of `prog`: the program is split at that step, the prefix's
+/// REAL `collect_seq` output is the input, and `from_vec(input).group_by_key()` is run in every mode on the real engine
+/// (registered as its own correspondence cases)
+fn gbk_oracle_every_position(cx: &mut Ctx, prog: &Prog, modes: &[Mode]) {
+    for (i, s) in prog.steps.iter().enumerate() {
+        if !matches!(s, Step::Gbk) { continue; }
+        let prefix = Prog { shape: prog.shape, src: prog.src.clone(), steps: prog.steps[..i].to_vec() };
+        if !hazard_free(&prefix) || ends_in_hazard(&prefix.steps) { continue; }
+        let input = match run_real(&prefix, Mode::Seq) { Outcome::Rows(r) => r, _ => continue };
+        // rows that went through a hash map come back in an arbitrary order: sort them, so that the request line is a
+        // function of the seed (the oracle is multiset-valued, so the order of the input does not matter to it)
+        let input = if prefix.has_barrier() { match canon_rows(&input, "top") { V::L(r) => r, _ => input } } else { input };
+        // only KV-shaped prefixes reach a gbk; rows are `P k v`
+        let split = Prog { shape: Shape::KV, src: input.clone(), steps: vec![Step::Gbk] };
+        cx.count(&format!("gbk-oracle:position:{}", if i + 1 == prog.steps.len() { "last" } else { "inner" }));
+        for m in modes {
+            let out = run_real(&split, *m);
+            let ans = outcome_answer(&out, split.canon());
+            let idx = cx.case(split.request(&m.enc()), ans, input.len() >= 2);
+            match out {
+                Outcome::Rows(rows) => judge_groups(cx, idx, &rows, &input, &format!("mode={} gbk at step {i} of {}", m.enc(), prog.request(&m.enc()))),
+                Outcome::Hang => cx.oracle_fail(idx, "run-does-not-terminate", format!("mode {}", m.enc())),
+                other => cx.oracle_fail(idx, "gbk-fails-on-real-prefix-output", format!("mode={} outcome={other:?} gbk at step {i} of {}", m.enc(), prog.request(&m.enc()))),
+            }
+        }
+    }
+}
+
 /// checks on the REAL output of a program whose last step is `gbk`: unique keys, exact partition
+#[allow(dead_code)]
 fn gbk_oracle(cx: &mut Ctx, prog: &Prog, modes: &[Mode]) {
     // input of the gbk = reference result of the prefix
     let prefix = Prog { shape: prog.shape, src: prog.src.clone(), steps: prog.steps[..prog.steps.len() - 1].to_vec() };
@@ -39,6 +125,9 @@ fn gbk_oracle(cx: &mut Ctx, prog: &Prog, modes: &[Mode]) {
 
 pub fn run(cx: &mut Ctx) {
     let o = CheckOpts { par_vs_seq: true, vs_reference: true };
+    // C04's comparison with the reference is multiset-valued inside groups (see the header)
+    let xo = crate::pipe_x::XOpts { ref_canon: Some("deep"), ..crate::pipe_x::XOpts::of(&o) };
+    let xm = |modes: &[Mode]| -> Vec<crate::pipe_x::XMode> { modes.iter().map(|m| crate::pipe_x::XMode::of(*m)).collect() };
     // exhaustive: all keyed inputs of <= 5 (quick 4) rows over 3 keys x partitions 1..6
     let maxlen = size_for(cx, 4, 5);
     let mut inputs: Vec<Vec<V>> = vec![vec![]];
@@ -58,9 +147,30 @@ pub fn run(cx: &mut Ctx) {
     let modes: Vec<Mode> = std::iter::once(Mode::Seq).chain((1..=6).map(Mode::Par)).collect();
     for src in &inputs {
         let p = Prog { shape: Shape::KV, src: src.clone(), steps: vec![Step::Gbk] };
-        check_prog(cx, &p, &modes, &o);
+        let outs = crate::pipe_x::check_prog_x(cx, &p, &xm(&modes), &xo);
+        let base = cx.reqs.len() - outs.len();
+        for (j, out) in outs.iter().enumerate() { if let Outcome::Rows(rows) = out { judge_groups(cx, base + j, rows, src, "exhaustive block"); } }
+        // the same key sequence with DUPLICATE values (value = position / 2: equal values within and across keys)
+        let dup: Vec<V> = src.iter().enumerate().map(|(i, r)| match r { V::P(k, _) => V::pair((**k).clone(), V::I(i as i64 / 2)), o => o.clone() }).collect();
+        if dup.len() >= 2 {
+            let p = Prog { shape: Shape::KV, src: dup.clone(), steps: vec![Step::Gbk] };
+            let outs = crate::pipe_x::check_prog_x(cx, &p, &xm(&modes), &xo);
+            let base = cx.reqs.len() - outs.len();
+            for (j, out) in outs.iter().enumerate() { if let Outcome::Rows(rows) = out { judge_groups(cx, base + j, rows, &dup, "exhaustive block, duplicate values"); } }
+        }
     }
-    cx.exhaustive_blocks.push(format!("group_by_key on all keyed inputs of length <= {maxlen} over 3 keys x seq + par 1..6 ({} inputs)", inputs.len()));
+    cx.exhaustive_blocks.push(format!("group_by_key on all keyed inputs of length <= {maxlen} over 3 keys, with pairwise distinct values and with duplicate values (position / 2), x seq + par 1..6 ({} key sequences); keys-unique / flatten / no-empty-group judged on every real output", inputs.len()));
+
+    // group_by_key inside the LEFT and inside the RIGHT join side (exhaustive small scope), wide plans (65..256
+    // partitions, also inside join sides), one 4000-row x 2000-key case
+    {
+        use crate::pipe_injoin::SideBarrier as B;
+        use crate::pipe_wide::WideKind as W;
+        crate::pipe_injoin::injoin_block(cx, &[B::Gbk, B::GbkLifted, B::DistinctPerKey], 4, &xo);
+        crate::pipe_wide::wide_block(cx, &[W::Gbk, W::Lifted, W::DistinctPerKey, W::JoinGbkSides], cx.budget(12, 60), &xo);
+        oracle_only_multiset(cx, &crate::pipe_wide::many_keys_prog(vec![Step::Gbk]), "rows=4000 keys=2000", &[Mode::Seq, Mode::Par(200), Mode::Par(256)]);
+        oracle_only_multiset(cx, &crate::pipe_wide::many_keys_prog(vec![Step::Gbk, Step::Glen]), "rows=4000 keys=2000", &[Mode::Seq, Mode::Par(65)]);
+    }
 
     // large partitions (the planner's target is 64k rows per partition): one partition well above that,
     // sequentially, with coarse partition counts, and inside a join side; oracle only
@@ -68,11 +178,11 @@ pub fn run(cx: &mut Ctx) {
     for &n in sizes {
         let src: Vec<V> = (0..n as i64).map(|i| V::pair(V::I((i * 7919) % 11), V::I(i))).collect();
         let p = Prog { shape: Shape::KV, src: src.clone(), steps: vec![Step::Gbk] };
-        check_prog_oracle_only(cx, &p, &format!("rows={n} keys=11"), &[Mode::Seq, Mode::Par(1), Mode::Par(2), Mode::Par(64)]);
+        oracle_only_multiset(cx, &p, &format!("rows={n} keys=11"), &[Mode::Seq, Mode::Par(1), Mode::Par(2), Mode::Par(64)]);
         let q = Prog { shape: Shape::KV, src: src.clone(), steps: vec![Step::Gbk, Step::Glen] };
-        check_prog_oracle_only(cx, &q, &format!("rows={n} keys=11"), &[Mode::Seq, Mode::Par(2)]);
+        oracle_only_multiset(cx, &q, &format!("rows={n} keys=11"), &[Mode::Seq, Mode::Par(2)]);
         let j = Prog { shape: Shape::KV, src: vec![V::pair(V::I(3), V::I(0))], steps: vec![Step::Join(JoinKind::Inner, Box::new(q.clone()))] };
-        check_prog_oracle_only(cx, &j, &format!("join side rows={n} keys=11"), &[Mode::Seq, Mode::Par(2)]);
+        oracle_only_multiset(cx, &j, &format!("join side rows={n} keys=11"), &[Mode::Seq, Mode::Par(2)]);
     }
 
     // group_by_key over a streamed file source (one part per shard, zero shards for an empty file)
@@ -80,7 +190,7 @@ pub fn run(cx: &mut Ctx) {
         let src: Vec<V> = (0..n as i64).map(|i| V::pair(V::I(i % 3), V::I(i))).collect();
         for per in [0usize, 1, 2, 5, 100] {
             let p = Prog { shape: Shape::KV, src: src.clone(), steps: vec![Step::Gbk] };
-            check_prog_file(cx, &p, per, &[Mode::Seq, Mode::Par(1), Mode::Par(4)], &o);
+            check_gbk_file(cx, &p, per, &[Mode::Seq, Mode::Par(1), Mode::Par(4)]);
         }
     }
 
@@ -95,15 +205,16 @@ pub fn run(cx: &mut Ctx) {
         p.steps.push(Step::Gbk);
         let choices = partition_choices(p.src.len());
         let modes = vec![Mode::Seq, Mode::Par(*cx.rng.pick(&choices)), Mode::Par(*cx.rng.pick(&choices))];
-        check_prog(cx, &p, &modes, &o);
-        gbk_oracle(cx, &p, &modes);
+        crate::pipe_x::check_prog_x(cx, &p, &xm(&modes), &xo);
+        // keys unique + flatten at EVERY gbk position (the final one included), on the prefix's real output
+        if hazard_free(&p) { gbk_oracle_every_position(cx, &p, &modes[..2]); }
         // and with a suffix / inside a join side
         if done % 4 == 0 {
             let mut q = p.clone();
             q.steps.push(match cx.rng.below(3) { 0 => Step::Ungroup, 1 => Step::Glen, _ => Step::CombineValuesLifted(Comb::Count) });
-            check_prog(cx, &q, &modes, &o);
+            crate::pipe_x::check_prog_x(cx, &q, &xm(&modes), &xo);
             let left = Prog { shape: Shape::KV, src: gen_rows(&mut cx.rng, Shape::KV, 6), steps: vec![Step::Join(JoinKind::Left, Box::new(q))] };
-            if !matches!(reference(&left), RefOut::NestedJoin) { check_prog(cx, &left, &modes, &o); }
+            if !matches!(reference(&left), RefOut::NestedJoin) { crate::pipe_x::check_prog_x(cx, &left, &xm(&modes), &xo); }
         }
         done += 1;
     }
